@@ -64,6 +64,13 @@ def render_history(h, variant=0):
             out.append("(pragma :warn-on-core-shadow False)")
         elif ev == "call":
             out.append(f'(setv (get R {i}) (try ({n} True 999) (except [NameError] 0)))')
+        elif ev in ("evalloc", "evallocx"):
+            macros = ' :macros {"%s" (fn [#* a] 800)}' % __import__("hy").mangle(n) if ev == "evallocx" else ""
+            kind = kinds[(variant + i) % 3] if variant else "fn"
+            inner = {"fn": f"(do (defn hyv-g [] (defmacro {n} [#* args] 700) ({n} True 999)) (hyv-g))",
+                     "class": f"(do (defclass hyv-K [] (defmacro {n} [#* args] 700) (setv v ({n} True 999))) hyv-K.v)",
+                     "lfor": f"(get (lfor hyv-j [0] (do (defmacro {n} [#* args] 700) ({n} True 999))) 0)"}[kind]
+            out.append(f"(setv (get R {i}) (try (hy.eval '{inner}{macros}) (except [NameError] 0)))")
         elif ev in ("eval", "evalx"):
             macros = ' :macros {"%s" (fn [#* a] 800)}' % __import__("hy").mangle(n) if ev == "evalx" else ""
             out.append(f"(setv (get R {i}) (try (hy.eval '({n} True 999){macros}) (except [NameError] 0)))")
@@ -93,7 +100,7 @@ def main_c35(run):
     rng = random.Random(run.seed)
     q = run.quick
     prepare_sources(run)
-    invs = ["LocalsPopped", "InnerShadows", "CoreAvailable", "RequireBringsExactly", "Export"]
+    invs = ["LocalsPopped", "InnerShadows", "CoreAvailable", "RequireBringsExactly", "ExtraFirst", "Export"]
     n = 3 if q else 4
     r = tlc.run("HyMacros", tlc.cfg(constants={"MaxEvents": n, "Focus": "all"}, invariants=invs), run.work, workers=16,
                 timeout=3400, heap="16g", label="exh")
@@ -156,7 +163,7 @@ def main_c35(run):
         nrun += 1
         ok = True
         for i, e in enumerate(h, 1):
-            if e["ev"] in ("call", "eval", "evalx"):
+            if e["ev"] in ("call", "eval", "evalx", "evalloc", "evallocx"):
                 if R.get(i) != e["res"]:
                     ok = False
                     run.violation("history:" + key, f"event {i} ({e['ev']} {e['n']}) of {key} expanded to {R.get(i)}, the "
@@ -175,7 +182,7 @@ def main_c35(run):
                 "text": render_history(sim[0]["h"]) if sim else None})
     return run.finish("model_checking",
                       "histories of defmacro / require (6 shapes, with and without _hy_export_macros) / function scopes / "
-                      "pragma / macro calls / hy.eval with a macros argument: every history of %d events exhaustively and "
+                      "pragma / macro calls / hy.eval with a macros argument, also of code that defines local macros itself: every history of %d events exhaustively and "
                       "7-event histories by TLC simulation; each is rendered as a module, compiled and run; every call's "
                       "expansion tag and the core-shadow warnings are compared with the spec" % n,
                       extra={"exhaustive": True})
